@@ -38,6 +38,10 @@ CLAIMED = {
     text="proof: Coq theorem (Props/C10.v): in any commutative ring with derivations, d/dx_j of the COMPLETE right-hand side sum_k A_ik x_k + b_i + c_i equals A_ij + d_j c_i for every dimension, which is what the model of get_jacobian_matrix assembles; the pinned tree's variant (summing A_ik without x_k) is proved to lose the linear part. Tie: full-system and numeric-sub-system Jacobians of the implementation evaluated exactly at rational points vs the model inside Coq; probes: exact derivative of the user's right-hand side, and numerical_jacobian vs finite differences of MixedIntegrator.step through the pygsl stand-in.",
     note="Trusted: Coq kernel/vm_compute; harness; sympy.diff modelled by a formal derivative (not proved to be a derivation); cython autowrap and GSL (stand-in) not verified; finite-difference half is a test.",
     technique="Coq proof (differential-ring algebra) + exact entrywise correspondence", ref="5/C10"),
+ "C16": dict(
+    text="proof + translator: the argument table, the keyword mapping of the analysis() call, the handling of a bare --preserve-expressions, the order of the error exits and the rule naming the result file are regenerated from ode_analyzer.py on every run; Props/C16.v proves that any sequence of flag groups after the input file parses to exactly the documented settings (c16_kwargs, any order/repetition), that exit status 0 and a written result happen iff the file exists, is valid JSON and analysis returns (c16_output), and that the result file is '<basename>_result.json' for every directory, stem (dots allowed) and extension (c16_name_*). Tie and probe: real subprocess runs over the product of the flags, an input pool (valid, missing, invalid JSON, empty, malformed, exiting) and tricky paths; parsed flags and file name vs the model (in Coq); result file compared with in-process analysis(**kwargs); non-zero exit and no file otherwise.",
+    note="Trusted: Coq kernel/vm_compute; translator (fail-closed); harness; argparse/json/OS modelled not verified (token-wise parser for the documented usage FILE [flags]). Mostly an exhaustive differential test of glue, with the name/flag logic proved.",
+    technique="Coq proof over translated CLI tables + subprocess differential test", ref="5/C16"),
  "C15": dict(
     text="proof: Coq theorems (Props/C15.v) over a model of the three generators and the dispatch, generic in a totally ordered number type with monotone addition: a regular train is exactly the multiples k*isi <= T (none missing, nothing else); a Poisson train, for every sequence of draws, has gaps >= min_isi, is strictly increasing and lies in (0,T]; a list stimulus is the sorted permutation of the listed times <= T for any length; each renamed target gets the in-order concatenation of the trains of all stimuli targeting it. Tie: the same Gallina functions instantiated with PrimFloat are compared bit-exactly (in Coq) with spike_times_from_json on generated stimuli sets; property text probed directly.",
     note="Trusted: Coq kernel/vm_compute, PrimFloat only in the executable instance; correspondence harness (draw replay, hex-float printing); np.loadtxt/np.sort/set order/random/math.log modelled not verified; theorems over exact ordered arithmetic.",
